@@ -525,9 +525,22 @@ MUTANTS = [
     ("C04-mh-step-keeps-old-log-prob-on-accept", "liesel/goose/mh.py",
      "        lambda: proposed_model_state,\n",
      "        lambda: (\n            {**proposed_model_state, \"_model_log_prob\": model_state[\"_model_log_prob\"]}\n            if isinstance(model_state, dict) and \"_model_log_prob\" in model_state\n            else proposed_model_state\n        ),\n"),
-    ("C04-hmc-writes-back-position-with-stale-data-dependent-nodes", "liesel/goose/interface.py",
-     "        self._model.update()\n        return self._model.state\n",
-     "        self._model.update(\"_model_log_prior\", *position.keys())\n        out = self._model.state\n        return out | {\"_model_log_prob\": out[\"_model_log_prob\"]._replace(value=out[\"_model_log_prior\"].value + model_state[\"_model_log_lik\"].value)}\n"),
+    # ------------------------------------------------------------------ C13
+    ("C13-tau2-shape-uses-full-rank", "liesel/model/distreg.py",
+     "        a_gibbs = jnp.squeeze(a_prior + 0.5 * rank)\n", "        a_gibbs = jnp.squeeze(a_prior + rank)\n"),
+    ("C13-tau2-scale-without-half", "liesel/model/distreg.py",
+     "        b_gibbs = jnp.squeeze(b_prior + 0.5 * (beta @ K @ beta))\n", "        b_gibbs = jnp.squeeze(b_prior + (beta @ K @ beta))\n"),
+    ("C13-tau2-gamma-rate-instead-of-inverse", "liesel/model/distreg.py",
+     "        draw = b_gibbs / jax.random.gamma(prng_key, a_gibbs)\n", "        draw = jax.random.gamma(prng_key, a_gibbs) / b_gibbs\n"),
+    ("C13-tau2-uses-dimension-instead-of-rank", "liesel/model/distreg.py",
+     '        rank = group.value_from(model_state, "rank")\n', '        rank = group.value_from(model_state, "beta").shape[-1]\n'),
+    ("C13-discrete-uses-prior-only", "liesel/model/goose.py",
+     '            model.update("_model_log_prob")\n            return model.log_prob\n', '            model.update("_model_log_prior")\n            return model.log_prior\n'),
+    ("C13-discrete-stale-likelihood", "liesel/model/goose.py",
+     '            model.update("_model_log_prob")\n            return model.log_prob\n', '            model.update(name)\n            return model.log_prob\n'),
+    ("C13-discrete-categorical-on-probabilities", "liesel/model/goose.py",
+     "        draw_index = jax.random.categorical(prng_key, logits=conditional_log_probs)\n",
+     "        draw_index = jax.random.categorical(\n            prng_key, logits=jnp.exp(conditional_log_probs - conditional_log_probs.max())\n        )\n"),
 ]
 
 # Semantics-preserving changes: the property still holds, so the check must NOT raise an alarm.
